@@ -1,29 +1,7 @@
-/- C01 — shell-pair integrals: structure of `compute_shell_pair` in the pipeline model
-   (Model/ShellPair.lean, bit for bit with ecpint.cpp / qgen.cpp / radial_quad.cpp at Float). -/
-import Ecpint.Model.ShellPair
-namespace Ecpint.C01
-open Ecpint Ecpint.ShellPair Ecpint.Contraction
-
-/-- the stride-2 loops `for (l = p % 2; l <= n; l += 2)` visit exactly the l ≤ n of the parity of p -/
-theorem parityRange_mem (n p l : Nat) : l ∈ parityRange n p ↔ l ≤ n ∧ l % 2 = p % 2 := by
-  simp [parityRange, List.mem_filter, List.mem_range]
-  omega
-
-/-- the three nested binomial-shift loops visit exactly the exponent triples below the component -/
-theorem subIdx_mem (c a : Nat × Nat × Nat) :
-    a ∈ subIdx c ↔ a.1 ≤ c.1 ∧ a.2.1 ≤ c.2.1 ∧ a.2.2 ≤ c.2.2 := by
-  obtain ⟨a1, a2, a3⟩ := a
-  simp [subIdx, List.mem_flatMap, List.mem_map, List.mem_range]
-  constructor
-  · rintro ⟨x, hx, y, hy, z, hz, rfl, rfl, rfl⟩; omega
-  · rintro ⟨h1, h2, h3⟩; exact ⟨a1, by omega, a2, by omega, a3, by omega, rfl, rfl, rfl⟩
-
-/-- the Cartesian components of a shell of angular momentum L are exactly the exponent triples of total degree L -/
-theorem cartList_mem (L : Nat) (t : Nat × Nat × Nat) : t ∈ cartList L ↔ t.1 + t.2.1 + t.2.2 = L := by
-  obtain ⟨x, y, z⟩ := t
-  simp [cartList, List.mem_flatMap, List.mem_map, List.mem_range]
-  constructor
-  · rintro ⟨i, hi, j, hj, rfl, rfl, rfl⟩; omega
-  · intro h; exact ⟨L - x, by omega, (L - (L - (L - x))) - y, by omega, by omega, by omega, by omega⟩
-
-end Ecpint.C01
+/- C01 — shell-pair integrals.  Root of the property's theorems:
+   C01a  index sets of the loops of the pipeline model (core Lean only)
+   C01b  Cartesian enumeration and ordering, binomial shift = (X − A)^a, the GAMMA table against Γ((i+1)/2),
+         the Gaussian moment integral behind the both-on-centre closed form (Mathlib)
+   The contraction algebra shared with C07/C09 is in Props/C07.lean and Props/C09.lean. -/
+import Ecpint.Props.C01a
+import Ecpint.Props.C01b
